@@ -147,7 +147,7 @@ def blocked_cases(draw):
         "spec": spec,
         "labels": labels,
         "path": draw(st.sampled_from(build.BUILD_PATHS_LP)),
-        "list_mode": draw(st.sampled_from(["none", "none", "objs", "objs", "ids", "mixed"])),
+        "list_mode": draw(st.sampled_from(["none", "none", "objs", "objs", "ids", "mixed", "dictlist"])),
         "sel": draw(st.lists(st.integers(0, n - 1), min_size=1, max_size=n, unique=True)),
         "open_exchanges": draw(st.booleans()),
         "processes": draw(st.sampled_from([1, 1, 1, 1, 1, 2])),
@@ -295,6 +295,10 @@ def check_blocked(case, ctx):
         arg = None
     elif mode == "objs":
         arg = [model.reactions.get_by_id(r) for r in want_ids]
+    elif mode == "dictlist":
+        from cobra import DictList
+
+        arg = DictList(model.reactions.get_by_id(r) for r in dict.fromkeys(want_ids))
     elif mode == "ids":
         arg = list(want_ids)
     else:
